@@ -30,8 +30,10 @@ ASSUMPTIONS = [
     "hashlib.md5/sha1 are deterministic functions of the id (the model takes their output as the parameter `pos`)",
     "dedup_trust_negative_cache=True is documented as safe only when this process is the store's only writer: a peer's mark "
     "followed by a re-run is recorded as outside the contract, not as a violation",
-    "retention cleanup (cleanup_old_processed_messages) deletes the record the guarantee rests on; the property is stated for "
-    "ids that were not swept (the option is off by default and documented as narrowing the redelivery window)",
+    "retention: the guarantee holds for a message as long as its processed record exists; the sweep "
+    "(cleanup_old_processed_messages) is part of the model and of the op strings (time advances by back-dating processed_at in "
+    "30-minute units, sweeps use max ages of k*30+15 minutes so that no record is ever exactly at the cutoff); a record "
+    "older than max_age is deleted by design and the message is open again",
     "age-based rotation (24 h) is triggered by moving the filter's creation time back, not by waiting",
 ]
 TRUSTED_BASE = [
@@ -41,9 +43,9 @@ TRUSTED_BASE = [
     "through a helper function called inside a block would be missed (none exists today: every txn.* call in handlers/ is direct)",
 ]
 
-# Which variant of `_handle_message` the model is asked to mirror: False = the code as found; set to True when
-# proposed_fixes/F7.diff (mark the filter when the handler raises) has been applied to the repository.
-MARK_ON_RAISE = False
+# Which variant of `_handle_message` the model is asked to mirror: True = the code as it is (the filter is marked when
+# the handler raises - repair of F7); False = the legacy behaviour before that repair.
+MARK_ON_RAISE = True
 import os as _os
 if _os.environ.get("VERIF_C09_MARK_ON_RAISE") in ("0", "1"):   # for trying the patched copy without editing this file
     MARK_ON_RAISE = _os.environ["VERIF_C09_MARK_ON_RAISE"] == "1"
@@ -234,10 +236,14 @@ def gen_proc_ops(rng, nids: int) -> list[str]:
             ops.append("restart")
         elif k < 0.82:
             ops.append("rot")
-        elif k < 0.92:
+        elif k < 0.90:
             ops.append(f"peer:{rng.randrange(nids)}")
-        else:
+        elif k < 0.95:
             ops.append("clean:" + ",".join(map(str, sorted(rng.sample(range(nids), rng.randint(1, min(2, nids)))))))
+        elif k < 0.975:
+            ops.append(f"tick:{rng.randint(1, 6)}")
+        else:
+            ops.append(f"sweep:{rng.randint(0, 8)}")
     return ops
 
 
@@ -248,6 +254,17 @@ def run_proc_case(rig: ProcRig, ids: list[str], cap: int, fp: float, trust: bool
     hits: list[tuple[str, str]] = []
     via: dict[str, set] = {}      # how each id's mark got into the store: return / raise / peer
     notes: list[str] = []
+    clock = 0                     # half-hours elapsed (time advances by back-dating the records)
+    born: dict[str, int] = {}     # clock value at which the current record of an id was inserted
+
+    def note_records() -> None:
+        conn = rig.store._get_connection()
+        present = {r[0] for r in conn.execute("SELECT message_id FROM processed_messages").fetchall()}
+        for mid in list(born):
+            if mid not in present:
+                del born[mid]
+        for mid in present:
+            born.setdefault(mid, clock)
 
     def tail() -> str:
         d = rig.dedup()
@@ -295,6 +312,26 @@ def run_proc_case(rig: ProcRig, ids: list[str], cap: int, fp: float, trust: bool
             rig.store.mark_message_processed(mid, handler_type="peer", execution_id="e")
             via.setdefault(mid, set()).add("peer")
             outs.append(tail())
+        elif parts[0] == "tick":
+            n2 = int(parts[1])
+            conn = rig.store._get_connection()
+            conn.execute("UPDATE processed_messages SET processed_at = datetime(processed_at, ?)", (f"-{30 * n2} minutes",))
+            conn.commit()
+            clock += n2
+            outs.append(tail())
+        elif parts[0] == "sweep":
+            h2 = int(parts[1])
+            note_records()
+            before = dict(born)
+            rig.store.cleanup_old_processed_messages(max_age_hours=(30 * h2 + 15) / 60.0)
+            for mid, t0 in before.items():
+                if clock - t0 <= h2 and not rig.store.is_message_processed(mid):
+                    hits.append((f"cleanup_old_processed_messages(max_age = {30 * h2 + 15} min) deleted the processed record of {mid!r}, "
+                                 f"which is {30 * (clock - t0)} min old", SIG_RETENTION))
+            for mid in list(via):
+                if not rig.store.is_message_processed(mid):
+                    via.pop(mid, None)
+            outs.append(tail())
         elif parts[0] == "clean":
             sel = [ids[int(x)] for x in parts[1].split(",")]
             conn = rig.store._get_connection()
@@ -304,6 +341,7 @@ def run_proc_case(rig: ProcRig, ids: list[str], cap: int, fp: float, trust: bool
             conn.commit()
             rig.store.cleanup_old_processed_messages(max_age_hours=24 * 365)
             outs.append(tail())
+        note_records()
         if verbose:
             print(f"   {op:14s} -> {outs[-1]}")
     return {"outs": outs, "hits": hits, "notes": notes}
